@@ -15,6 +15,7 @@ func init() {
 	register("C13", "other", func(p *Program, r *Report) {
 		runC13(p, r)
 		checkBoundsProven(p, r, "C13.B1", "trustedresourceurl.go")
+		checkLoopsMakeProgress(p, r, "C13.B2", "trustedresourceurl.go")
 	})
 }
 
